@@ -2,6 +2,7 @@
 
 from __future__ import annotations
 
+from fractions import Fraction
 from typing import Any, Callable, Dict, List, Optional, Tuple
 
 from .core import Abstain
@@ -113,6 +114,8 @@ class Explorer:
                         continue
                     if s2 is None:
                         continue
+                    if any(isinstance(v, Fraction) and abs(v) > 10**30 for v in s2.values()):
+                        return seen, False  # numeric blow-up: the space is not finite in practice
                     k = freeze(s2)
                     if k not in seen:
                         if len(seen) >= max_states:
